@@ -803,7 +803,15 @@ func selftestDeterminism(props []string) int {
 		}
 	}
 	base := seedBase() * 1000003
-	procs := []int{1, 4, 16}
+	procs := []int{1, 1, 4, 16}
+	if v := os.Getenv("VERIF_SELFTEST_PROCS"); v != "" {
+		procs = nil
+		for _, f := range strings.Split(v, ",") {
+			if n, err := strconv.Atoi(strings.TrimSpace(f)); err == nil && n > 0 {
+				procs = append(procs, n)
+			}
+		}
+	}
 	total, diverged := 0, 0
 	report := map[string]any{}
 	for _, prop := range props {
